@@ -18,7 +18,8 @@ TIME_RE = re.compile(r"\b(t|d)=([0-9a-f]+|nan)")
 
 class C15(Property):
     id = "C15"
-    lean_module = "RosuModel.Props.C15Map"   # imports Props/C15.lean; both files are in namespace Rosu.C15
+    # chain: C15Velocity ▸ C15ShiftLines ▸ C15Shift (▸ Lemmas/ShiftLaws) ▸ C15Map ▸ C15; all in namespace Rosu.C15
+    lean_module = "RosuModel.Props.C15Velocity"
     namespace = "Rosu.C15"
     design_ref = "5.15"
     required_theorems = ["sorted_perm", "sorted_nondecreasing", "sorted_stable", "postProcessBreaks_length", "orNewCombo_only_sets",
@@ -29,7 +30,23 @@ class C15(Property):
                          "first_after_break_unconditional_false", "first_after_break_new_combo_decoded",
                          "apply_idempotent", "apply_fixed_iff", "apply_fixed_of_resolved", "apply_resolves", "apply_absorbs",
                          "postProcessBreaks_pointwise", "finalizeObject_sim", "finalizeObjects_pointwise", "finalize_perm",
-                         "finalize_length_times"]
+                         "finalize_length_times",
+                         # Lemmas/ShiftLaws.lean (searches / lookups / adds / flush commute with + k under ShiftLaws)
+                         "searchKey_map", "lookupChecked_map", "lookupSaturating_map", "insertOrReplace_map",
+                         "timingPointAt_shift", "difficultyPointAt_shift", "effectPointAt_shift", "samplePointAt_shift", "lookup_shift",
+                         "addTiming_shift", "addDifficulty_shift", "addEffect_shift", "addSample_shift", "flushInto_shift",
+                         # Props/C15Shift.lean (finalisers)
+                         "sort_shift", "skipBreaks_shift", "postProcessBreaks_shift", "applyNodeSamples_shift",
+                         "finalizeObject_shift", "finalizeObjects_shift", "tp_finish_rel", "tp_finish_shift", "finish_rel",
+                         "finish_shift", "beatmap_finish_shift", "zShiftLaws", "zSorted",
+                         # Props/C15ShiftLines.lean (line parsers, fold)
+                         "maybeFlush_rel", "applyTpLine_rel", "parseTpRaw_shift", "tp_parse_line_shift", "ev_parse_line_shift",
+                         "parseHeader_shift", "buildSpinner_shift", "buildHold_shift", "buildSlider_shift", "ho_parse_line_shift",
+                         "parse_line_shift", "step_shift", "fold_shift", "shift_invariant_partial", "beatmap_step_shift",
+                         "beatmap_fold_shift", "beatmap_finish_rel", "beatmap_shift_invariant_partial", "shift_invariant_Z", "zBody_shift",
+                         # Props/C15Velocity.lean (worded formula, exact rationals)
+                         "sClamp", "inv_clamp_osu", "inv_clamp_taiko", "clampedSV_of_range", "precisionAdjusted_rat",
+                         "velocity_worded", "difficultyPoint_new_range", "slider_finalized_worded"]
     partial_theorems = {
         "first_after_break_new_combo": "proved under the hypothesis that the breaks are listed in non-decreasing end-time order (pairwise ¬ b₂.end < b₁.end; "
             "pairwise_of_consecutive derives it from the consecutive form) and one order fact about `<` on the values involved (x ≤ y < z → x < z on a set N containing "
@@ -40,9 +57,21 @@ class C15(Property):
         "finalize_perm": "the decoded list is related position by position (ObjSim) to the stably sorted parsed list: same start time, same kind and line-level fields, "
             "new-combo only raised, slider velocity / node samples (same count) and per-sample defaults changed; that the changed values are the documented ones is "
             "slider_finalized / apply_default_sample, not restated here",
-        "shift_invariant": "not proved (needs ordered-group laws for every float operation on times and a shift lemma for the parsers); evaluated on the implementation by "
-            "decoding pairs of files whose times differ by a whole number of milliseconds",
-        "velocity/duration": "slider_finalized is the closed form as the code evaluates it (IEEE, any Scalar); agreement with the formula as the property words it is checked within 4 ulp by the oracle",
+        "shift_invariant": "proved as a LAW-DEPENDENT theorem, not for IEEE floats. Hypothesis structure ShiftLaws F k (Lemmas/ShiftLaws.lean): x ↦ x + k is strictly monotone "
+            "for the total_cmp key and for IEEE <, keeps NaN-ness, (a+k)−(b+k) = a−b, (a+k)+d = (a+d)+k. Under it: (1) finish_shift / finish_rel / beatmap_finish_shift — the "
+            "finalisers commute with adding k to every stored time (stable sort, post_process_breaks, timing / difficulty / sample point lookups via lookup_shift, node and object "
+            "sample defaults, the flush of the pending control-point group); velocities, durations, samples, flags and the error outcome are unchanged; (2) parse_line_shift "
+            "(tp_/ev_/ho_parse_line_shift) — timing-point, [Events] and hit-object lines that differ only in time fields parsing (model parser, not reasoned about) to t and t+k "
+            "give related state updates and the same accept/reject result; spinner/hold durations are end−start and hence unshifted; (3) shift_invariant_partial / "
+            "beatmap_shift_invariant_partial — fold over any list of (section, line) pairs from the initial state, then finish. Instantiated for every k on the exact integer scalar "
+            "Z (zShiftLaws, shift_invariant_Z) with worked examples on real text lines (zBody_shift). NOT proved: shift_invariant_statement for the Float instance (would need "
+            "t + k exact for all times involved and exactness of every derived sum — IEEE rounding reasoning; e.g. −0 + 0 changes the total_cmp key), and the step from decimal text "
+            "to 'this field parses to t + k' (number codec), and the framing loop (lines are taken as already tagged with their section). That regime is evaluated on the "
+            "implementation by decoding pairs of files whose times differ by a whole number of milliseconds",
+        "velocity/duration": "slider_finalized is the closed form as the code evaluates it (IEEE, any Scalar). velocity_worded / slider_finalized_worded prove, in exact rational "
+            "arithmetic (Rat instance of Lemmas/ToyRat.lean) and for a positive active multiplier, that it equals the worded formula velocity = 100·SM·clamp(sv)/beat_len with "
+            "clamp(sv) = clamp(sv, 0.01, 10) (osu!/catch) or clamp(sv, 0.1, 10) (taiko/mania), duration = spans·distance/velocity; difficultyPoint_new_range + clampedSV_of_range: "
+            "a multiplier stored by DifficultyPoint::new is in [0.1, 10] where the clamp is the identity. For IEEE the two forms differ by rounding; checked within 4 ulp by the oracle",
     }
     level_text = ("Lean 4 theorems over the model of From<HitObjectsState> for HitObjects: the sort is a permutation, non-decreasing in start time and stable (core mergeSort lemmas over "
                   "the total_cmp key); break processing only sets new-combo flags and its pointer walk is characterised exactly; a finalised slider stores velocity = 100·SM / "
@@ -51,9 +80,13 @@ class C15(Property):
                   "and object count are untouched. Props/C15Map.lean adds the user-level clauses: with breaks listed in end-time order the first non-hold object after EACH break has "
                   "new_combo = true (and the negation of the unconditional clause on a concrete witness: F14); SamplePoint::apply is idempotent, its fixed points are characterised "
                   "exactly, and a sample resolved against a point with positive volume / non-zero custom index is a fixed point of every sample point (why decode∘encode∘decode is "
-                  "stable on samples); the decoded object list is position by position the stably sorted parsed list up to new-combo / velocity / sample defaults (finalize_perm). Model tied to the code by the whole-file `dec` differential (all fields by bits); the property is re-derived on the implementation "
+                  "stable on samples); the decoded object list is position by position the stably sorted parsed list up to new-combo / velocity / sample defaults (finalize_perm). "
+                  "Shift invariance is proved under an explicit law structure on the scalar (ShiftLaws: + k monotone for total_cmp and <, cancels in differences, commutes with adding a "
+                  "duration) at three levels — control-point lookups/adds, the finalisers (finish_shift), the line parsers and their fold (shift_invariant_partial) — and holds "
+                  "outright on the exact integer scalar; it is not a theorem about IEEE floats. The velocity closed form equals the worded formula in exact rational arithmetic "
+                  "(velocity_worded). Model tied to the code by the whole-file `dec` differential (all fields by bits); the property is re-derived on the implementation "
                   "from its own pre-finalisation state (harness `c15`) and by decoding time-shifted pairs of files (`decshift`).")
-    technique = "Lean 4 proof (mergeSort stability, pointer-walk invariant, closed forms) + whole-file differential + closed-form / shift oracles on the implementation"
+    technique = "Lean 4 proof (mergeSort stability, pointer-walk invariant, closed forms; law-dependent shift invariance with an exact integer instance; worded velocity formula over Rat) + whole-file differential + closed-form / shift oracles on the implementation"
     trusted_base = [
         "Lean 4.33.0 kernel; axioms ⊆ {propext, Classical.choice, Quot.sound} per #print axioms",
         "hand-written models Model/{Finalize,Curve,ControlPoints,Decoders}.lean tied to /repo by the `dec` differential of this run",
